@@ -185,7 +185,9 @@ contract(FC, "CartesianProduct.random_sample_sub_objects", props=["C08"], lenien
              "samplers": ["random_choice <= total", "random_choice > total - tmp", "idx == _ci"],
              "recs": ["random_choice > total", "idx == _i1"]},
          loops={0: dict(invariant=["random_choice > total", "total >= 0"], modifies=[]),
-                1: dict(invariant=["tmp >= 0", "random_choice > total", "total >= 0"], modifies=[])},
+                # the weight of a composition is the product of the children's counts (ghost product gp, starting from 1)
+                1: dict(ghost_before=["gp = 1"], ghost_end=['gp = gp * last_result("prov:recs")'],
+                        invariant=["tmp >= 0", "random_choice > total", "total >= 0", "tmp == gp"], modifies=[])},
          notes="for every outcome r of randint(1, parent_count)")
 
 # ------------------------------------------------------------------ C09: parameter maps (pure integer functions)
